@@ -11,7 +11,7 @@ ASSUMPTIONS = [
     "length from a second source and a second signer is used for interleaving",
     "memo ids come from a counter-based stand-in for uuid (hio.core.memo.memoing.uuid); ed25519 seeds are constants; vids are "
     "non-transferable ('B') so the receiver needs no key store",
-    "the sender is the real Memoer.rend (under a step guard and an itimer), the receiver the real Memoer/AuthMemoer fed through its "
+    "the sender is the real Memoer.rend (under a step guard and a CPU-time itimer), the receiver the real Memoer/AuthMemoer fed through its "
     "own receive(echoic) datagram queue and serviceAllRx(); signed codes are received by an authic receiver (thorough: also by a plain "
     "one), unsigned codes by a plain one",
     "a legal gram size is one the size setter keeps as is: >= zeroth-gram overhead + 1 (overhead x 3/4 with base2 headers)",
